@@ -3,7 +3,7 @@ CONSTANTS
   Replicas = {"r1"}
   MaxLog = 3
   MaxBatch = 2
-  Chunk = 2
+  Chunk = 1
   MaxNet = 2
   MaxQ = 3
   MaxFaults = 1
